@@ -29,27 +29,33 @@ macro_rules! vio {
 pub fn method_ok(api: i64, st: u8, m: i64) -> bool {
     // st: 0 = E, 1 = O, 2 = V
     match (api, st) {
-        (0, 0) => (1..=9).contains(&m),
+        (0, 0) => (1..=9).contains(&m) || m == 26,
         (0, 1) => (10..=18).contains(&m),
         (0, 2) => (20..=23).contains(&m),
-        // EntryRef::key / or_insert_with_key need K: Borrow<Q>, which the simulator's view types do not offer
-        (1, 0) => matches!(m, 1 | 2 | 3 | 6 | 9),
+        // EntryRef::key (5) / or_insert_with_key (4) need K: Borrow<Q>: only for key types with KeyT::BORROWS,
+        // see method_ok_k
+        (1, 0) => matches!(m, 1 | 2 | 3 | 4 | 5 | 6 | 9 | 26),
         (1, 1) => (10..=16).contains(&m),
         (1, 2) => matches!(m, 20 | 22 | 23),
         (2..=4, 0) => matches!(m, 1 | 2 | 3 | 6 | 7 | 8 | 9),
         (2..=4, 1) => (10..=18).contains(&m) || (30..=35).contains(&m),
         (2..=4, 2) => matches!(m, 22 | 24 | 25),
-        (5, 0) => matches!(m, 1 | 2 | 3 | 5 | 6 | 9),
+        (5, 0) => matches!(m, 1 | 2 | 3 | 5 | 6 | 9 | 26),
         (5, 1) => (10..=16).contains(&m),
         (5, 2) => (20..=23).contains(&m),
         _ => false,
     }
 }
 
+/// `method_ok` for a key type: without `Borrow<View>` an entry_ref chain has no key() / or_insert_with_key().
+pub fn method_ok_k(api: i64, st: u8, m: i64, borrows: bool) -> bool {
+    method_ok(api, st, m) && (borrows || !(api == 1 && st == 0 && (m == 4 || m == 5)))
+}
+
 /// Expected observation log of an entry chain, and its effect on the model.
 /// `ks` = serial of the key handed to entry()/rustc_entry() (0 for by-reference flavours),
 /// `k2` = serials of spare key instances handed to raw inserts / insert_key.
-pub fn model_chain(model: &mut MapModel, api: i64, kid: u32, ks: u32, methods: &[i64], vals: &[(u32, u32)], k2: &[u32], tgl: u32) -> Vec<Ev> {
+pub fn model_chain(model: &mut MapModel, api: i64, kid: u32, ks: u32, methods: &[i64], vals: &[(u32, u32)], k2: &[u32], tgl: u32, borrows: bool, vfresh: u32) -> Vec<Ev> {
     let mut log = Vec::new();
     let mut st = 0u8; // 0 E, 1 O, 2 V, 3 done
     let mut eks = if api == 1 { FRESH } else { ks };
@@ -70,7 +76,7 @@ pub fn model_chain(model: &mut MapModel, api: i64, kid: u32, ks: u32, methods: &
         if st == 3 {
             break;
         }
-        if !method_ok(api, st, m) {
+        if !method_ok_k(api, st, m, borrows) {
             break;
         }
         let occ = model.pos(kid);
@@ -101,6 +107,17 @@ pub fn model_chain(model: &mut MapModel, api: i64, kid: u32, ks: u32, methods: &
                     log.push(Ev::Key(kid, model.e[i].ks));
                 }
                 log.push(Ev::Val(model.e[i].v, model.e[i].vs));
+                st = 3;
+            }
+            (0, 26) => {
+                // or_default: the value is created inside hashbrown (payload 0, serial unknown to the model)
+                match occ {
+                    Some(i) => log.push(Ev::Val(model.e[i].v, model.e[i].vs)),
+                    None => {
+                        model.e.push(ME { kid, ks: eks, v: 0, vs: vfresh });
+                        log.push(Ev::Val(0, vfresh));
+                    }
+                }
                 st = 3;
             }
             (0, 5) => {
@@ -239,6 +256,7 @@ pub fn logs_match(expect: &[Ev], got: &[Ev]) -> bool {
     expect.len() == got.len()
         && expect.iter().zip(got.iter()).all(|(e, g)| match (e, g) {
             (Ev::Key(a, FRESH), Ev::Key(b, _)) => a == b,
+            (Ev::Val(a, FRESH), Ev::Val(b, _)) => a == b,
             (Ev::RetKey(a, FRESH), Ev::RetKey(b, _)) => a == b,
             (Ev::Removed(a, FRESH, c, d), Ev::Removed(b, _, x, y)) => a == b && c == x && d == y,
             _ => e == g,
@@ -321,7 +339,7 @@ impl<K: KeyT, V: ValT> MapWorld<K, V> {
                 None => vec![Ev::Occ(false)],
             }
         } else {
-            model_chain(&mut expect_model, api, kid, ks, &methods, &vtoks, &k2, Self::TG)
+            model_chain(&mut expect_model, api, kid, ks, &methods, &vtoks, &k2, Self::TG, K::BORROWS, if V::HAS_SERIAL { FRESH } else { 0 })
         };
         let m = self.slots[si].map.as_mut().unwrap();
         let mut spare_v: Vec<V> = Vec::new();
@@ -350,7 +368,7 @@ impl<K: KeyT, V: ValT> MapWorld<K, V> {
                             St::V(_) => 2,
                             St::Done => 3,
                         };
-                        if code == 3 || !method_ok(1, code, mth) {
+                        if code == 3 || !method_ok_k(1, code, mth, K::BORROWS) {
                             break;
                         }
                         st = match (st, mth) {
@@ -370,6 +388,31 @@ impl<K: KeyT, V: ValT> MapWorld<K, V> {
                                 if let Some(v) = slot {
                                     spv.push(v);
                                 }
+                                St::Done
+                            }
+                            (St::E(e), 4) => {
+                                let mut slot = Some(vals.next().unwrap());
+                                let r = K::eref_or_insert_with_key(e, &mut |q| {
+                                    tick(Class::Pred);
+                                    if q != kid {
+                                        sim().violations.push(("entry/Entry".into(), format!("or_insert_with_key handed key {q} to the constructor, the entry is for {kid}")));
+                                    }
+                                    slot.take().unwrap()
+                                });
+                                log.push(Ev::Val(r.val(), r.serial()));
+                                if let Some(v) = slot {
+                                    spv.push(v);
+                                }
+                                St::Done
+                            }
+                            (St::E(e), 5) => {
+                                log.push(Ev::Key(K::eref_key(&e), 0));
+                                St::E(e)
+                            }
+                            (St::E(e), 26) => {
+                                sim().probe(Probe::EntryOrDefault);
+                                let r = e.or_default();
+                                log.push(Ev::Val(r.val(), r.serial()));
                                 St::Done
                             }
                             (St::E(e), 6) => St::E(e.and_modify(|v| {
@@ -642,6 +685,12 @@ impl<K: KeyT, V: ValT> MapWorld<K, V> {
                                 log.push(Ev::Key(e.key().id(), e.key().serial()));
                                 St::E(e)
                             }
+                            (St::E(e), 26) => {
+                                sim().probe(Probe::EntryOrDefault);
+                                let r = e.or_default();
+                                log.push(Ev::Val(r.val(), r.serial()));
+                                St::Done
+                            }
                             (St::E(e), 6) => St::E(e.and_modify(|v| {
                                 tick(Class::Pred);
                                 v.set(v.val() ^ TOGGLE)
@@ -759,6 +808,14 @@ impl<K: KeyT, V: ValT> MapWorld<K, V> {
             for e in expect_model.e.iter_mut().filter(|e| e.ks == FRESH) {
                 if let Some((a, _)) = act.iter().find(|(a, _)| a.kid == e.kid) {
                     e.ks = if K::HAS_SERIAL { a.ks } else { 0 };
+                }
+            }
+        }
+        if expect_model.e.iter().any(|e| e.vs == FRESH) {
+            let act = self.actual(si);
+            for e in expect_model.e.iter_mut().filter(|e| e.vs == FRESH) {
+                if let Some((a, _)) = act.iter().find(|(a, _)| a.kid == e.kid) {
+                    e.vs = a.vs;
                 }
             }
         }
